@@ -66,9 +66,22 @@ def run(chk):
         if it % 7 == 0:
             # another default-constructed model, fitted with solver keywords of its own, must not influence the models that follow
             impl.sspoc_bystander(n, n_classes=3, extra_kws=True)
+        # the weights do not depend on how many sensors are kept afterwards: any sensor count / threshold, also 0 sensors, and a
+        # model "with a past" (fitted before, all sensors dropped, fitted again) must give the same kind of weights
+        sel_kw = [{}, {}, {"n_sensors": 0}, {"n_sensors": int(rng.integers(1, n + 1))}, {"threshold": 1e9}, {"threshold": 0}][int(rng.integers(0, 6))]
+        past = ["none", "none", "dropped-to-0", "threshold-too-high"][int(rng.integers(0, 4))]
+        case["selection"] = {k_: v_ for k_, v_ in sel_kw.items()}
+        case["past"] = past
+        chk.count("selection:" + (",".join(sel_kw) or "default") + "/past:" + past)
         try:
+            model = U.make_sspoc(bcfg, l1_penalty=l1, **sel_kw)
+            if past != "none":
+                impl.quiet(model.fit, X, y, quiet=True, refit=False)
+                if past == "dropped-to-0":
+                    impl.quiet(model.update_sensors, n_sensors=0, quiet=True)
+                else:
+                    impl.quiet(model.update_sensors, threshold=1e9, quiet=True)
             with record_solvers(calls):
-                model = U.make_sspoc(bcfg, l1_penalty=l1)
                 impl.quiet(model.fit, X, y, quiet=True, refit=False)
         except Exception as e:
             chk.violation("impl", "fit-raises", f"SSPOC.fit with default solver settings raised {type(e).__name__}: {e}", case)
